@@ -296,6 +296,7 @@ def history_cases() -> Any:
                                 "via": st.sampled_from(["add_middlewares", "add_middlewares", "with_middlewares"])})
     op = st.one_of(st.tuples(st.just("msg"), st.sampled_from(["ok", "ok", "fail", "nores"])).map(list),
                    st.tuples(st.just("msg"), st.sampled_from(["ok", "fail"])).map(list),
+                   st.tuples(st.just("burst"), st.integers(2, 4)).map(list),
                    st.tuples(st.just("add"), mw).map(list))
     return st.fixed_dictionaries({"history": st.just(True), "initial": st.lists(mw, max_size=2), "ops": st.lists(op, min_size=2, max_size=9)})
 
@@ -316,6 +317,8 @@ def run_history(c: Dict[str, Any]) -> Outcome:
 
         async def kick(self, m: Any) -> None:
             log.append(("kick", None))
+            sends.append(("kick", None, m.task_id))
+            await asyncio.sleep(0)          # a broker whose kick really suspends (a network round trip)
             self.q.append(m)
 
         async def listen(self):  # type: ignore[override]
@@ -328,21 +331,28 @@ def run_history(c: Dict[str, Any]) -> Outcome:
                 if spec["async"]:
                     async def f(self: Any, *a: Any, **k: Any) -> Any:
                         log.append((h, idx))
+                        if h in ("pre_send", "post_send"):
+                            sends.append((h, idx, a[0].task_id))
+                            await asyncio.sleep(0)
                         return a[0] if h in ("pre_send", "pre_execute") else None
                 else:
                     def f(self: Any, *a: Any, **k: Any) -> Any:  # type: ignore[misc]
                         log.append((h, idx))
+                        if h in ("pre_send", "post_send"):
+                            sends.append((h, idx, a[0].task_id))
                         return a[0] if h in ("pre_send", "pre_execute") else None
                 return f
             ns[h] = mk()
         return type(f"HistMW{idx}", (TaskiqMiddleware,), ns)()
 
     stack: List[Any] = []     # model: (idx, spec) in registration order
+    sends: List[Any] = []     # send-side events with the task id of the message the hook was handed
+    bursts = 0
     nmsg = 0
     late = False
 
     async def go() -> None:
-        nonlocal nmsg, late
+        nonlocal nmsg, late, bursts
         b = QB()
         b.result_backend = InmemoryResultBackend()
 
@@ -371,6 +381,23 @@ def run_history(c: Dict[str, Any]) -> Outcome:
                     b.add_middlewares(make_mw(idx, arg))
                 late = late or nmsg > 0
                 continue
+            if op == "burst":
+                # ONE kicker object (task.kicker().with_labels(...) kept around) used for several sends that are in flight together
+                del sends[:]
+                bursts += 1
+                kk = AsyncKicker("hist.t", b, {"tenant": "a"})
+                handles = await asyncio.gather(*[kk.kiq("ok") for _ in range(arg)])
+                ids = [h_.task_id for h_ in handles]
+                per: Dict[str, List[Any]] = {}
+                for h_, i_, tid in sends:
+                    per.setdefault(tid, []).append((h_, i_))
+                want = [(h_, i_) for h_ in ("pre_send",) for i_, s in stack if h_ in s["hooks"]] + [("kick", None)] + [("post_send", i_) for i_, s in stack if "post_send" in s["hooks"]]
+                if len(set(ids)) != arg or sorted(per) != sorted(set(ids)) or any(per[t_] != want for t_ in per):
+                    out.add("C10.a", f"{arg} concurrent sends through one kicker with the stack {[(i_, s['hooks']) for i_, s in stack]}: returned task ids {ids}; "
+                                     f"send-side hook sequences per message id {per}; documented for each message: {want}")
+                    return
+                del b.q[:]
+                continue
             del log[:]
             nmsg += 1
             await AsyncKicker("hist.t", b, {}).with_task_id(f"H{nmsg}").kiq(arg)
@@ -397,7 +424,7 @@ def run_history(c: Dict[str, Any]) -> Outcome:
 
     asyncio.run(go())
     out.nontrivial = late
-    out.classes = ["history"] + (["middleware_registered_after_first_message"] if late else [])
+    out.classes = ["history"] + (["middleware_registered_after_first_message"] if late else []) + (["concurrent_sends_through_one_kicker"] if bursts else [])
     return out
 
 
